@@ -42,7 +42,10 @@ def evaluate(mdir, args):
             shutil.copy(f, repo)
         tests = sum((test_names(f) for f in demos), [])
         run = "^(" + "|".join(tests) + ")$"
-        rc0, out0 = sh(["go", "test", "-vet=off", "-count=1", "-timeout", "120s", "-run", run, "."], repo)
+        if args.checks_only:
+            rc0 = 0
+        else:
+            rc0, out0 = sh(["go", "test", "-vet=off", "-count=1", "-timeout", "120s", "-run", run, "."], repo)
         res["demo_without_patch"] = "pass" if rc0 == 0 else "FAIL"
         rc, out = sh(["patch", "-p1", "--no-backup-if-mismatch", "-i", patch], repo)
         if rc != 0:
@@ -54,13 +57,19 @@ def evaluate(mdir, args):
             res["status"] = "no-build"
             res["detail"] = out[-300:]
             return res
-        rc1, out1 = sh(["go", "test", "-vet=off", "-count=1", "-timeout", "120s", "-run", run, "."], repo)
+        if args.checks_only:
+            rc1, out1 = 1, ""
+        else:
+            rc1, out1 = sh(["go", "test", "-vet=off", "-count=1", "-timeout", "120s", "-run", run, "."], repo)
         res["demo_with_patch"] = "fail" if rc1 != 0 else "PASS"
         res["demo_excerpt"] = "\n".join(l for l in out1.splitlines() if "---" in l or "panic" in l or "_test.go" in l)[:400]
         # suite with patch (without the demo files)
         for f in demos:
             os.remove(os.path.join(repo, os.path.basename(f)))
-        rcs, outs = sh(["go", "test", "-vet=off", "-count=1", "-timeout", "20m", "./..."], repo, timeout=1500)
+        if args.checks_only:
+            rcs, outs = 0, ""
+        else:
+            rcs, outs = sh(["go", "test", "-vet=off", "-count=1", "-timeout", "20m", "./..."], repo, timeout=1500)
         bad = [l for l in outs.splitlines() if re.match(r"\s*--- FAIL|panic|.*\[build failed\]", l) and "TestVerifyHostname" not in l]
         res["suite_with_patch"] = "pass" if not bad else "FAIL: " + "; ".join(bad)[:300]
         # checks
@@ -71,10 +80,12 @@ def evaluate(mdir, args):
         detected, undecided, details = [], [], {}
         for pid in CHECKS:
             c = subprocess.run([os.path.join(ROOT, "bin/utlsverify"), "-prop", pid, "-tier", "quick", "-root", vroot], env=env, capture_output=True, text=True)
-            if c.returncode == 1:
+            hard = [l for l in c.stdout.splitlines() if l.startswith("VIOLATION") and "kind=undecided" not in l]
+            if c.returncode != 0 and hard:
                 detected.append(pid)
                 details[pid] = [l.strip()[:260] for l in c.stdout.splitlines() if l.strip().startswith("violation")][:3]
             elif c.returncode != 0:
+                # fails closed: the check exits 1 with a VIOLATION line of kind=undecided
                 undecided.append(pid)
                 details[pid] = [l.strip()[:260] for l in c.stdout.splitlines() if "UNDECIDED" in l][:3]
         res["detected_by"] = detected
@@ -83,7 +94,12 @@ def evaluate(mdir, args):
         ok = res["demo_without_patch"] == "pass" and res["demo_with_patch"] == "fail" and res["suite_with_patch"] == "pass"
         res["status"] = "confirmed" if ok else "not-confirmed"
         res["caught"] = prop in detected
-        if args.keep and ok:
+        if args.checks_only and ok:
+            mp = os.path.join(mdir, "meta.json")
+            meta = json.load(open(mp))
+            meta.update({"detected_by_checks": detected, "undecided_checks": undecided, "target_check_detects": prop in detected, "target_check_fails_closed": prop in undecided, "violations_reported": details.get(prop, [])})
+            json.dump(meta, open(mp, "w"), indent=1)
+        if args.keep and ok and not args.checks_only:
             dst = os.path.join(ROOT, "seeded", name)
             os.makedirs(dst, exist_ok=True)
             shutil.copy(patch, dst)
@@ -97,7 +113,7 @@ def evaluate(mdir, args):
                 except Exception:
                     meta = {}
             meta.update({"property": prop, "confirmed_by": "tools/seeded.py: demo passes on the unmodified tree, fails with the patch; repo suite passes with the patch (TestVerifyHostname excluded)",
-                         "detected_by_checks": detected, "undecided_checks": undecided, "target_check_detects": prop in detected,
+                         "detected_by_checks": detected, "undecided_checks": undecided, "target_check_detects": prop in detected, "target_check_fails_closed": prop in undecided,
                          "violations_reported": details.get(prop, [])})
             json.dump(meta, open(os.path.join(dst, "meta.json"), "w"), indent=1)
         return res
@@ -110,6 +126,7 @@ def main():
     ap.add_argument("--keep", action="store_true")
     ap.add_argument("-j", type=int, default=6)
     ap.add_argument("--only")
+    ap.add_argument("--checks-only", action="store_true", help="re-run only the checks on already confirmed mutations (directories under /verif/seeded)")
     args = ap.parse_args()
     mdirs = []
     for d in args.dirs:
